@@ -133,14 +133,18 @@ def v1Regex : List Seg :=
     L "OLDFILEUID:", W0, C isWordDash, W0,
     L "NEWFILEUID:", W0, C isWordDash ]
 
-/-- `OFXHeaderV2.regex` -/
+def Q : Seg := .item .openq
+def Q' : Seg := .item .closeq
+
+/-- `OFXHeaderV2.regex`: each value between `(["'])` and a back-reference to it (the quote groups are unnamed,
+    so `groupdict()` holds the five fields only) -/
 def v2Regex : List Seg :=
   [ L "<?OFX", W1,
-    L "OFXHEADER=\"", C isDigit, L "\"", W1,
-    L "VERSION=\"", C isDigit, L "\"", W1,
-    L "SECURITY=\"", C isWord, L "\"", W1,
-    L "OLDFILEUID=\"", C isWordDash, L "\"", W1,
-    L "NEWFILEUID=\"", C isWordDash, L "\"", W0,
+    L "OFXHEADER=", Q, C isDigit, Q', W1,
+    L "VERSION=", Q, C isDigit, Q', W1,
+    L "SECURITY=", Q, C isWord, Q', W1,
+    L "OLDFILEUID=", Q, C isWordDash, Q', W1,
+    L "NEWFILEUID=", Q, C isWordDash, Q', W0,
     L "?>", W0 ]
 
 /-- `XML_REGEX` -/
@@ -401,22 +405,20 @@ def readline (file : Bytes) (pos : Nat) : Bytes × Nat :=
   (l, pos + l.length)
 
 /-- the `for _ in range(8)` loop looking for the first non-blank line:
-    `(header_start, line, position after the line)` -/
+    `(header_start, line, position after the line)`; lines are decoded with `errors="replace"` -/
 def findHeader (file : Bytes) : Nat → Nat → PyM (Nat × Str × Nat)
   | 0, _ => throw .header
-  | n + 1, pos => do
+  | n + 1, pos =>
     let (l, pos') := readline file pos
-    let line ← decodeAscii l
+    let line := decodeAsciiReplace l
     if (strip line).isEmpty then findHeader file n pos' else pure (pos, line, pos')
 
-/-- the eight further `rawheader += source.readline().decode("ascii")` -/
-def moreLines (file : Bytes) : Nat → Nat → PyM Str
-  | 0, _ => pure []
-  | n + 1, pos => do
+/-- the eight further `rawheader += source.readline().decode("ascii", errors="replace")` -/
+def moreLines (file : Bytes) : Nat → Nat → Str
+  | 0, _ => []
+  | n + 1, pos =>
     let (l, pos') := readline file pos
-    let line ← decodeAscii l
-    let rest ← moreLines file n pos'
-    pure (line ++ rest)
+    decodeAsciiReplace l ++ moreLines file n pos'
 
 /-- `parse_header(io.BytesIO(file))` -/
 def parseHeader (p1 : V1P) (p2 : V2P) (tbl : List (Option Nat)) (file : Bytes) : PyM (Hdr × Str) := do
@@ -427,8 +429,7 @@ def parseHeader (p1 : V1P) (p2 : V2P) (tbl : List (Option Nat)) (file : Bytes) :
     let (h, e) ← parseV2 p2 decoded
     pure (.v2 h, decoded.drop e)
   | none =>
-    let more ← moreLines file 8 pos
-    let raw := line ++ '\n' :: more
+    let raw := line ++ moreLines file 8 pos
     let (h, e) ← parseV1 p1 raw
     let codec ← codecV1 p1 h
     let message ← decode tbl codec (file.drop (headerStart + e))
